@@ -83,6 +83,8 @@ pub struct Inst {
     pub active: Vec<u64>,
     pub removed: Vec<u64>,
     pub deps: Vec<u64>,
+    /// a variable that already carries a fixed value in the generated instance
+    pub prefixed: Option<(u64, Value)>,
 }
 pub struct InstOpts {
     pub max_deg: u64,
@@ -142,10 +144,12 @@ pub fn rand_instance(r: &mut Rng, o: &InstOpts) -> Inst {
     let mut vj: Vec<Value> = vars.iter().map(|v| v.to_json(r)).collect();
     // sometimes a variable the problem does not use carries a previously fixed value (substituted_value);
     // states may still mention it, with the same or another in-bound value
+    let mut prefixed = None;
     if !irrelevant.is_empty() && r.chance(1, 3) {
         let vid = irrelevant[0];
         let spec = vars.iter().find(|v| v.id == vid).unwrap();
         let val = spec.value(r);
+        prefixed = Some((vid, val.clone()));
         for v in vj.iter_mut() {
             if v["id"] == vid {
                 v["fixed"] = json!([val]);
@@ -157,7 +161,7 @@ pub fn rand_instance(r: &mut Rng, o: &InstOpts) -> Inst {
     }
     let json = json!({"sense": if r.chance(1, 2) { "min" } else { "max" }, "vars": vj, "objective": objective,
         "constraints": cons_json, "removed": removed_json, "deps": deps_json, "params": [], "hints": [], "description": [], "parameters": []});
-    Inst { vars, json, used, active, removed, deps: dep_ids }
+    Inst { vars, json, used, active, removed, deps: dep_ids, prefixed }
 }
 impl Inst {
     /// in-bound state over all non-dependent variables (optionally omitting irrelevant ones)
@@ -209,6 +213,16 @@ pub fn generate(group: &str, r: &mut Rng, n: usize) -> Vec<Value> {
             for k in 0..n {
                 let inst = rand_instance(r, &InstOpts { max_deg: 3, ..DEFAULT });
                 let mut st = inst.state(r, false);
+                // a combined assignment is one assignment: where the instance already records a fixed value the
+                // state agrees with it (a state that contradicts a recorded value is outside C03's domain; the
+                // `evaluate` group keeps generating those and judges which value is reported)
+                if let Some((vid, val)) = &inst.prefixed {
+                    for e in st.iter_mut() {
+                        if e.0 == *vid {
+                            e.1 = val.clone();
+                        }
+                    }
+                }
                 r.shuffle(&mut st);
                 let cut = r.below(st.len() as u64 + 1) as usize;
                 let s1 = &st[..cut];
@@ -417,11 +431,25 @@ pub fn generate(group: &str, r: &mut Rng, n: usize) -> Vec<Value> {
                 // rewrite constraint functions with the chosen denominator over <= 3 variables
                 fn gcd(a: i64, b: i64) -> i64 { if b == 0 { a.abs() } else { gcd(b, a % b) } }
                 let rc = |r: &mut Rng| -> Value { let p = r.range(-2 * den, 2 * den); let g = gcd(p, den).max(1); json!([p / g, den / g]) };
+                let red = |p: i64| -> Value { let g = gcd(p, den).max(1); json!([p / g, den / g]) };
                 for c in j["constraints"].as_array_mut().unwrap() {
                     let mut terms = vec![];
-                    for id in &ids { if r.chance(2, 3) { terms.push(json!({"id": id, "c": rc(r)})); } }
+                    let mut raw: Vec<(u64, i64)> = vec![];
+                    for id in &ids { if r.chance(2, 3) { let p = r.range(-2 * den, 2 * den); raw.push((*id, p)); terms.push(json!({"id": id, "c": red(p)})); } }
                     let f = if r.chance(1, 3) && ids.len() >= 2 {
                         json!({"kind":"quadratic","rows":[ids[0]],"columns":[ids[1]],"values":[rc(r)],"linear":[{"kind":"linear","terms":terms,"constant":rc(r)}]})
+                    } else if r.chance(1, 4) {
+                        // boundary: the constant makes the exact minimum (or maximum) of f over the box equal to 0, so the
+                        // "never holds" / "always holds" decisions sit exactly on their thresholds
+                        let at_min = r.chance(2, 3);
+                        let mut ext = 0i64;
+                        for (id, p) in &raw {
+                            let v = inst.vars.iter().find(|v| v.id == *id).unwrap();
+                            let (lo, hi) = v.eff();
+                            let (lo, hi) = (lo.unwrap_or(0), hi.unwrap_or(0));
+                            ext += p * if (*p > 0) == at_min { lo } else { hi };
+                        }
+                        json!({"kind":"linear","terms":terms,"constant":red(-ext)})
                     } else {
                         json!({"kind":"linear","terms":terms,"constant":rc(r)})
                     };
